@@ -21,7 +21,7 @@ REQUIRED = {"c07_pairs": 1250, "c07_pairs_strictly_larger": 125, "c07_scans_cut_
 
 
 def plan(tier, seed):
-    return ec.plan(ID, tier, seed, stride3=24)
+    return ec.plan(ID, tier, seed, stride3=40)
 
 
 def run_shard(spec, ctx):
